@@ -43,6 +43,9 @@ def run(chk):
     from .c01b import r01o
 
     chk.attempt(r01o, chk, thorough=chk.tier == 'thorough')
+    from .c01b import r01p
+
+    chk.attempt(r01p, chk)
 
 
 # ---------------------------------------------------------------------------
